@@ -45,6 +45,15 @@ func init() { commands["c25"] = runC25 }
 
 var abciInfo = abci.RequestInfo{}
 
+// c25RepoMarker: the directory prefix of the node's source files in stack traces and race reports
+// (/repo/, or the tree the harness was built against: VERIF_REPO)
+var c25RepoMarker = func() string {
+	if r := strings.TrimRight(os.Getenv("VERIF_REPO"), "/"); r != "" {
+		return r + "/"
+	}
+	return "/repo/"
+}()
+
 // c25ResMu guards the child's result record: the watchdog goroutine serialises it while the main goroutine fills it
 var c25ResMu sync.Mutex
 
@@ -84,6 +93,49 @@ type c25Result struct {
 	PanicsSoFar []c25QueryPanic `json:"panics_so_far"` // handler panics recorded while the run was going on
 	SeqCalls    map[string]int  `json:"seq_calls"`
 	Done        bool            `json:"done"`
+}
+
+// pollCtx: a context whose Done() channel closes at the k-th time somebody asks for it: the handlers and the
+// state methods poll ctx.Done() in selects (checkTimeout, swapPools, getFromTo), so the cancellation lands at a
+// chosen poll, e.g. inside the loop over the pool registry.
+type pollCtx struct {
+	context.Context
+	left int32
+	ch   chan struct{}
+	once sync.Once
+}
+
+func (c *pollCtx) Done() <-chan struct{} {
+	if atomic.AddInt32(&c.left, -1) <= 0 {
+		c.once.Do(func() { close(c.ch) })
+	}
+	return c.ch
+}
+
+func (c *pollCtx) Err() error {
+	select {
+	case <-c.ch:
+		return context.Canceled
+	default:
+		return nil
+	}
+}
+
+// c25Ctx: the context of one request: usually alive for the whole call; sometimes cancelled before the call,
+// after a few microseconds, or at its k-th poll (a client that goes away, a request timeout).  Whatever the
+// handler does with it, it must leave the state usable: block execution goes on (watchdog).
+func c25Ctx(r *Rng) (context.Context, context.CancelFunc) {
+	switch x := r.Intn(20); {
+	case x < 12:
+		return context.WithTimeout(context.Background(), 5*time.Second)
+	case x < 14:
+		ctx, cancel := context.WithCancel(context.Background())
+		cancel()
+		return ctx, cancel
+	case x < 17:
+		return context.WithTimeout(context.Background(), time.Duration(r.Intn(300))*time.Microsecond)
+	}
+	return &pollCtx{Context: context.Background(), left: int32(1 + r.Intn(12)), ch: make(chan struct{})}, func() {}
 }
 
 type c25Perturbed struct {
@@ -133,8 +185,8 @@ type c25Pool struct {
 // firstRepoFrame returns the first frame below /repo of a stack dump (file:line, relative).
 func firstRepoFrame(stack string) string {
 	for _, l := range strings.Split(stack, "\n") {
-		if i := strings.Index(l, "/repo/"); i >= 0 {
-			f := strings.TrimSpace(l[i+len("/repo/"):])
+		if i := strings.Index(l, c25RepoMarker); i >= 0 {
+			f := strings.TrimSpace(l[i+len(c25RepoMarker):])
 			if j := strings.Index(f, " +0x"); j > 0 {
 				f = f[:j]
 			}
@@ -176,8 +228,8 @@ func (p *c25Pool) call(kind string, f func() error) {
 func stackRepoFrames(stack string, max int) string {
 	var out []string
 	for _, l := range strings.Split(stack, "\n") {
-		if i := strings.Index(l, "/repo/"); i >= 0 {
-			f := strings.TrimSpace(l[i+len("/repo/"):])
+		if i := strings.Index(l, c25RepoMarker); i >= 0 {
+			f := strings.TrimSpace(l[i+len(c25RepoMarker):])
 			if j := strings.Index(f, " +0x"); j > 0 {
 				f = f[:j]
 			}
@@ -201,7 +253,7 @@ func pick(r *Rng, n int) int {
 // (Height 0), except the "historical" kind, which asks for the last committed height.
 func (p *c25Pool) one(r *Rng) {
 	tg := p.tg
-	ctx, cancel := context.WithTimeout(context.Background(), 5*time.Second)
+	ctx, cancel := c25Ctx(r)
 	defer cancel()
 	addr := tg.Addrs[pick(r, len(tg.Addrs))]
 	coin := tg.Coins[pick(r, len(tg.Coins))]
@@ -460,7 +512,7 @@ func c25Watchdog(progress *int64, limit time.Duration, res *c25Result, save func
 				if strings.Contains(g, "main.(*Node).Block") {
 					exec = firstRepoFrame(g)
 					detail = append([]string{"EXECUTOR " + hdr + " " + stackRepoFrames(g, 6)}, detail...)
-				} else if blocked && strings.Contains(g, "/repo/") {
+				} else if blocked && strings.Contains(g, c25RepoMarker) {
 					if firstBlocked == "" {
 						firstBlocked = firstRepoFrame(g)
 					}
@@ -725,19 +777,26 @@ func c25FirstTouch(seed uint64, res *c25Result) {
 //		waitlist: Unbond of a part of a waitlisted stake (genesis waitlist) against the WaitList handler; afterwards
 //		        the waitlisted value must be what is left.
 //
+//	  balances: Send to an account that already holds a committed balance of the coin and never sends itself
+//	          (accounts 8..15) against the Address handler (GetBalances -> GetBalance per coin: the per-coin balance
+//	          cache of the account is cold after the restart); afterwards the balance must be the genesis balance
+//	          plus the accepted sends.
 //	  symbolinfo: EditCoinOwner against CoinInfoById (GetSymbolInfo); afterwards the ticker owner must be the new one.
 //	  symbols: RecreateToken against CoinInfo by symbol (GetCoinBySymbol); afterwards the ticker must resolve to the new coin.
 //
 // Every mismatch is confirmed on a private state opened at the committed height (what the tree holds).
-var c25RestartKinds = []string{"frozen", "coins", "waitlist", "symbolinfo", "symbols"}
+var c25RestartKinds = []string{"frozen", "coins", "waitlist", "symbolinfo", "symbols", "balances"}
 
 // c25LostKey: the finding key of a lost update found by the restart scenario of the given kind
 var c25LostKey = map[string]string{"frozen": "c25-lost-update:frozenfunds", "coins": "c25-lost-update:coins", "waitlist": "c25-lost-update:waitlist",
-	"symbolinfo": "c25-lost-update:coins.symbolinfo", "symbols": "c25-lost-update:coins.symbols"}
+	"symbolinfo": "c25-lost-update:coins.symbolinfo", "symbols": "c25-lost-update:coins.symbols", "balances": "c25-lost-update:accounts.balance"}
 
 func c25FirstTouchRestart(seed uint64, res *c25Result, kind string, rounds int) {
 	r := NewRng(seed)
 	spec := &GenesisSpec{NAccounts: 8, Balance: pip(100000000), NVals: 3}
+	if kind == "balances" {
+		spec.NAccounts = 16
+	}
 	if kind == "waitlist" {
 		spec.Mutate = func(st *types.AppState) {
 			for _, a := range st.Accounts {
@@ -763,7 +822,7 @@ func c25FirstTouchRestart(seed uint64, res *c25Result, kind string, rounds int) 
 	if raceEnabled {
 		spinMax = 3000
 	}
-	K := len(n.Accts)
+	K := 8
 	// setup
 	due := make([]uint32, K)        // frozen: the due block of account k
 	expected := make([]*big.Int, K) // frozen: sum locked at due[k]; coins: volume of token k
@@ -781,6 +840,9 @@ func c25FirstTouchRestart(seed uint64, res *c25Result, kind string, rounds int) 
 				txs = append(txs, n.MkTx(n.Accts[k], transaction.TypeLock, transaction.LockData{DueBlock: due[k], Coin: 0, Value: v}, 0, 0, 1, nil))
 				expected[k].Add(expected[k], v)
 				count[k]++
+			} else if kind == "balances" {
+				expected[k] = new(big.Int).Set(spec.Balance)
+				txs = append(txs, n.MkTx(n.Accts[k], transaction.TypeSend, transaction.SendData{Coin: 0, To: n.Accts[(k+1)%K].Addr, Value: Z(1)}, 0, 0, 1, nil))
 			} else if kind == "waitlist" {
 				expected[k] = pip(1000)
 				// (a transaction per account, so that the setup block is the same for every kind)
@@ -842,6 +904,8 @@ func c25FirstTouchRestart(seed uint64, res *c25Result, kind string, rounds int) 
 						defer func() { recover() }()
 						if kind == "frozen" {
 							svc.Frozen(context.Background(), &pb.FrozenRequest{Address: n.Accts[k].Addr.String()})
+						} else if kind == "balances" {
+							svc.Address(context.Background(), &pb.AddressRequest{Address: n.Accts[K+k].Addr.String()})
 						} else if kind == "waitlist" {
 							svc.WaitList(context.Background(), &pb.WaitListRequest{Address: n.Accts[k].Addr.String()})
 						} else if kind == "symbols" {
@@ -859,6 +923,8 @@ func c25FirstTouchRestart(seed uint64, res *c25Result, kind string, rounds int) 
 			vals[k] = new(big.Int).Add(r.BigBelow(pip(3)), Z(1))
 			if kind == "frozen" {
 				txs = append(txs, n.MkTx(n.Accts[k], transaction.TypeLock, transaction.LockData{DueBlock: due[k], Coin: 0, Value: vals[k]}, 0, 0, 1, nil))
+			} else if kind == "balances" {
+				txs = append(txs, n.MkTx(n.Accts[k], transaction.TypeSend, transaction.SendData{Coin: 0, To: n.Accts[K+k].Addr, Value: vals[k]}, 0, 0, 1, nil))
 			} else if kind == "waitlist" {
 				txs = append(txs, n.MkTx(n.Accts[k], transaction.TypeUnbond, transaction.UnbondDataV3{PubKey: n.Vals[0].Pub, Coin: 0, Value: vals[k]}, 0, 0, 1, nil))
 			} else if kind == "symbolinfo" {
@@ -955,10 +1021,27 @@ func c25FirstTouchRestart(seed uint64, res *c25Result, kind string, rounds int) 
 					return t
 				case "waitlist":
 					return waitOf(n.Accts[k].Addr)
+				case "balances":
+					return nil
 				}
 				return volumeOf(tokens[k])
 			}
 			live := n.App.CurrentState()
+			if kind == "balances" {
+				to := n.Accts[K+k].Addr
+				got := live.Accounts().GetBalance(to, 0)
+				committed := "?"
+				if cs, err := n.App.GetStateForHeight(uint64(n.Height)); err == nil {
+					committed = cs.Accounts().GetBalance(to, 0).String()
+				}
+				if got.Cmp(expected[k]) != 0 || committed != expected[k].String() {
+					c25ResMu.Lock()
+					res.LostUpdates = append(res.LostUpdates, kind+"|"+fmt.Sprintf("height %d (round %d after a restart): Send of %s pip to %s (which held %s) accepted (code 0); its balance is %s (committed tree: %s), expected %s", n.Height, round, vals[k], to.String(), new(big.Int).Sub(expected[k], vals[k]), got, committed, expected[k]))
+					c25ResMu.Unlock()
+					expected[k] = new(big.Int).Set(got)
+				}
+				continue
+			}
 			got := read(func(h uint64) (vs []*big.Int) {
 				if ff := live.FrozenFunds().GetFrozenFunds(h); ff != nil {
 					for _, f := range ff.List {
@@ -1021,6 +1104,9 @@ func c25FirstTouchRestart(seed uint64, res *c25Result, kind string, rounds int) 
 // random height (every lazy cache and one-time flag cold again), then all kinds mixed.  DeliverTx
 // responses, validator updates, emission and app hashes must be those of the query-free run.
 
+// c25SeqProgress: bumped by every transaction and every handler call of the sequential mode (watchdog)
+var c25SeqProgress int64
+
 var c25SeqHandlers = []string{"swap_pools", "swap_pool", "swap_pool_provider", "limit_orders", "best_trade", "estimate_coin_sell", "estimate_coin_buy",
 	"estimate_coin_sell_all", "estimate_tx_commission", "candidates", "candidate", "coin_info", "address", "addresses", "frozen", "waitlist", "misc"}
 
@@ -1058,8 +1144,15 @@ func c25TxType(raw []byte) transaction.TxType {
 }
 
 // c25SeqCall issues the requests of one handler kind (for the current state, Height 0), chosen by r.
-func c25SeqCall(svc *service.Service, n *Node, tg *c25Targets, kind string, r *Rng, calls map[string]int) {
+func c25SeqCall(svc *service.Service, n *Node, tg *c25Targets, kind string, r *Rng, calls map[string]int, first bool) {
 	ctx := context.Background()
+	if !first {
+		// later calls also come with contexts that are cancelled before or in the middle of the call
+		var cancel context.CancelFunc
+		ctx, cancel = c25Ctx(r)
+		defer cancel()
+	}
+	atomic.AddInt64(&c25SeqProgress, 1)
 	do := func(f func()) {
 		defer func() { recover() }() // a panicking handler is caught by the gRPC recovery interceptor
 		f()
@@ -1208,13 +1301,14 @@ func c25SeqRun(h *History, tg *c25Targets, kind string, kinds []string, restartA
 	res := &HistResult{}
 	started, first, position, turn := false, false, "never", 0
 	call := func() {
+		wasFirst := first
 		first = false
 		k := kind
 		if kinds != nil {
 			k = kinds[turn%len(kinds)]
 			turn++
 		}
-		c25SeqCall(svc, n, tg, k, r, calls)
+		c25SeqCall(svc, n, tg, k, r, calls, wasFirst)
 	}
 	for bi, b := range h.Blocks {
 		if restartAt > 0 && bi == restartAt {
@@ -1224,6 +1318,7 @@ func c25SeqRun(h *History, tg *c25Targets, kind string, kinds []string, restartA
 		opts := b.Opts
 		bi := bi
 		opts.PreTx = func(i int, raw []byte) {
+			atomic.AddInt64(&c25SeqProgress, 1)
 			if started && i == 0 && r.Intn(2) == 0 {
 				call() // between BeginBlock and the first transaction
 			}
@@ -1292,8 +1387,13 @@ func c25Sequential(seed uint64, res *c25Result, save func()) {
 		res.ReplayDiff = "restart: " + d
 		return
 	}
+	// a handler that leaves a mutex locked (a return path without the unlock, taken when its context is cancelled)
+	// makes the next transaction block for ever: the watchdog turns that into a report
+	stopWatch := c25Watchdog(&c25SeqProgress, 8*time.Second, res, save)
+	defer stopWatch()
 	t0 := time.Now()
 	check := func(kind, variant string, got *HistResult, pos string, ref *HistResult) {
+		atomic.AddInt64(&c25SeqProgress, 1)
 		res.SeqRuns++
 		if os.Getenv("C25_TIMING") != "" {
 			fmt.Fprintf(os.Stderr, "%-24s %-12.12s %6.0f ms\n", kind, variant, float64(time.Since(t0).Microseconds())/1000)
@@ -1472,8 +1572,8 @@ func parseRaceLog(text string) [][5]string {
 			}
 			if inAccess && cur.site == "" {
 				if m := raceFrameRe.FindStringSubmatch(l); m != nil {
-					if i := strings.Index(m[1], "/repo/"); i >= 0 {
-						cur.site = strings.TrimSuffix(prev, "()") + " " + m[1][i+len("/repo/"):] + ":" + m[2]
+					if i := strings.Index(m[1], c25RepoMarker); i >= 0 {
+						cur.site = strings.TrimSuffix(prev, "()") + " " + m[1][i+len(c25RepoMarker):] + ":" + m[2]
 						cur.owner = raceOwner(prev)
 					}
 				}
@@ -1545,7 +1645,11 @@ func runC25(seed uint64, n int, out, stats string, args []string) {
 			nStatic++
 			parts := strings.SplitN(strings.TrimPrefix(l, "c25-unguarded:"), ":", 3)
 			what := "C25: access outside the lock discipline: " + l
-			if strings.HasPrefix(l, "c25-nonatomic-fill:") {
+			if strings.HasPrefix(l, "c25-lock-not-released:") {
+				what = "C25: a function returns on some path with a mutex it acquired still locked (no unlock, no deferred unlock on that path): the next goroutine that asks for it - block execution - blocks for ever: " + strings.TrimPrefix(l, "c25-lock-not-released:")
+			} else if strings.HasPrefix(l, "c25-lock-released-twice:") {
+				what = "C25: a function releases a mutex for which a deferred release is pending, or twice in a row (sync: unlock of unlocked mutex is a fatal error): " + strings.TrimPrefix(l, "c25-lock-released-twice:")
+			} else if strings.HasPrefix(l, "c25-nonatomic-fill:") {
 				what = "C25: a cache fill checks for absence and stores in two separate critical sections: a query that loads the object concurrently with the executor's first touch replaces the object the executor has already modified (lost update, demonstrated for Accounts by c25-lost-update; Coq: C25_memo_nonatomic_refuted): " + strings.TrimPrefix(l, "c25-nonatomic-fill:")
 			} else if strings.HasPrefix(l, "c25-relock:") {
 				what = "C25: a mutex is acquired while the same goroutine already holds it (sync mutexes are not reentrant: a recursive RLock deadlocks as soon as a writer arrives in between): " + strings.TrimPrefix(l, "c25-relock:")
